@@ -297,11 +297,12 @@ func (cf *compactFlusher) StreamWriter() (table.StreamWriter, error) {
 	if err := cf.beforeAdd(); err != nil {
 		return nil, err
 	}
-	sw := cf.compactJob.state.builder.StreamWriter()
+	builder := cf.compactJob.state.builder
 	// hooks stream writer with compaction processing checkers
 	cf.streamWriter = &compactFlusherStreamWriter{
 		compactFlusher: cf,
-		StreamWriter:   sw,
+		StreamWriter:   builder.StreamWriter(),
+		builder:        builder,
 	}
 	return cf.streamWriter, nil
 }
@@ -317,6 +318,10 @@ func (cf *compactFlusher) beforeAdd() error {
 }
 
 func (cf *compactFlusher) afterAdd() error {
+	if cf.compactJob.state.builder == nil {
+		// nothing was written into a new output file
+		return nil
+	}
 	// close current store build's file if it is big enough
 	if cf.compactJob.state.builder.Size() >= cf.compactJob.state.maxFileSize {
 		if err := cf.compactJob.finishCompactionOutputFile(); err != nil {
@@ -363,10 +368,36 @@ func (cf *compactFlusher) Release() {
 type compactFlusherStreamWriter struct {
 	compactFlusher *compactFlusher
 	table.StreamWriter
+	builder table.Builder // output file the embedded stream writer is bound to
+	err     error         // failure of opening the next output file, reported by Write/Commit
+}
+
+// Prepare re-binds the stream writer to the current output file:
+// afterAdd finishes the output file when it is big enough, the next key goes to a new one.
+func (cfsw *compactFlusherStreamWriter) Prepare(key uint32) {
+	if cfsw.err = cfsw.compactFlusher.beforeAdd(); cfsw.err != nil {
+		return
+	}
+	if builder := cfsw.compactFlusher.compactJob.state.builder; builder != cfsw.builder {
+		cfsw.builder = builder
+		cfsw.StreamWriter = builder.StreamWriter()
+	}
+	cfsw.StreamWriter.Prepare(key)
+}
+
+// Write writes into the current output file.
+func (cfsw *compactFlusherStreamWriter) Write(data []byte) (int, error) {
+	if cfsw.err != nil {
+		return 0, cfsw.err
+	}
+	return cfsw.StreamWriter.Write(data)
 }
 
 // Commit checks if build's file if it is big enough
 func (cfsw *compactFlusherStreamWriter) Commit() error {
+	if cfsw.err != nil {
+		return cfsw.err
+	}
 	// table's StreamWriter Commit won't raise error
 	_ = cfsw.StreamWriter.Commit()
 	return cfsw.compactFlusher.afterAdd()
